@@ -5,6 +5,7 @@ import importlib
 GEN = {
     'C01': [('Gen_C01', 'props.t_C01')],
     'C02': [('Gen_C02', 'props.t_C02')],
+    'C03': [('Gen_C03', 'props.t_C03')],
     'C08': [('Gen_C08', 'props.t_C08')],
     'C09': [('Gen_C09', 'props.t_C09')],
     'C10': [('Gen_C10', 'props.t_C10')],
